@@ -293,10 +293,23 @@ class SecNode:
         return names
 
     def check_attachments(self):
-        """a cycle in the attachments is a configuration error
+        """a missing or wrongly typed attached module or a cycle in the
+        attachments is a configuration error
 
-        (there is no order to shut such modules down)
+        (there is no order to shut modules in a cycle down)
         """
+        # resolve all attachments now: a missing or wrongly typed one has to be
+        # reported before anything is started, also when it is used late
+        for name, modobj in self.modules.items():
+            for pname, prop in modobj.propertyDict.items():
+                if hasattr(prop, 'basecls'):  # an Attached property
+                    try:
+                        getattr(modobj, pname)
+                    except ConfigError as e:
+                        self.errors.append(f'{name}: {e}')
+        if self.errors:
+            return
+
         state = {}  # name -> 'visiting' or 'done'
 
         def visit(name, path):
